@@ -1105,13 +1105,14 @@ func (s *State) evalForSpecialForms(fe *ast.ForExpression) (object.Object, bool)
 	case object.ERROR:
 		return v, true
 	case object.ARRAY, object.MAP, object.STRING:
-		return s.evalForList(fe, v, name), true
+		return s.evalForList(fe, v, name, loopReg), true
 	default:
 		return object.NULL, false
 	}
 }
 
-func (s *State) evalForList(fe *ast.ForExpression, list object.Object, name string) object.Object {
+// loopReg is set when the loop variable is an integer parameter / outer loop variable held in a register.
+func (s *State) evalForList(fe *ast.ForExpression, list object.Object, name string, loopReg *object.Register) object.Object {
 	var lastEval object.Object
 	lastEval = object.NULL
 	for object.Len(list) > 0 {
@@ -1120,7 +1121,16 @@ func (s *State) evalForList(fe *ast.ForExpression, list object.Object, name stri
 		if v == nil {
 			return s.NewError("for list element is nil")
 		}
-		s.env.Set(name, v)
+		if loopReg != nil {
+			// the body reads the register: the element goes there (same rule as assigning to that variable).
+			intVal, ok := Int64Value(v)
+			if !ok {
+				return s.NewError("register assignment of non integer: " + v.Inspect())
+			}
+			*loopReg.Ptr() = intVal
+		} else {
+			s.env.Set(name, v)
+		}
 		// Copy pasta from evalForInteger. hard to share control flow.
 		nextEval := s.evalInternal(fe.Body)
 		switch nextEval.Type() {
